@@ -6,30 +6,36 @@ From BNP Require Export Base.Prims Model.C04.
 Import ListNotations.
 Open Scope Z_scope.
 
+(* One case = one file + one SESSION: several tables are derived from the table that was read (a derived table may be
+   built from an earlier one), and some of them — the source and intermediate tables included — are written, each to its
+   own file, after all of them have been derived.  Every written table is given by its program with the references to
+   earlier tables expanded (the model is functional: deriving a table never changes the tables it was derived from, so a
+   reference and its definition denote the same table; the implementation must agree — this is what catches aliasing). *)
 Record case := {
   k_fmt : fmt;
   k_recs : list grec;            (* ground truth: the records the file was laid out from *)
   k_header : list Z;             (* '#'/'@' header lines (text formats) — copied by the writer *)
   k_file : list Z;               (* the bytes after the header, as written to disk by the harness *)
-  k_prog : prog;                 (* the program, index expressions resolved by NumPy on arange *)
-  k_out : option (list Z)        (* the whole output file (BAM: decompressed, header removed by the harness); None = exception *)
+  k_runs : list (prog * option (list Z))
+     (* per written table: its program (index expressions resolved by NumPy on arange) and the whole output file
+        (BAM: decompressed); None = exception *)
 }.
 
 (* the generator's file really is the layout of its records *)
 Definition file_ok (c : case) : bool := zlist_eqb (layout (k_fmt c) (k_recs c)) (k_file c).
 
-Definition strip_header (c : case) : option (option (list Z)) :=   (* None = header not reproduced *)
-  match k_out c with
+Definition strip_header (c : case) (out : option (list Z)) : option (option (list Z)) :=   (* None = header not reproduced *)
+  match out with
   | None => Some None
   | Some o => match is_prefix (k_header c) o with Some body => Some (Some body) | None => None end
   end.
 
 Definition spec_ok (c : case) : bool :=
   file_ok c &&
-  match strip_header c with
-  | None => false
-  | Some body => spec_out_ok (k_fmt c) (k_recs c) (k_prog c) body
-  end.
+  forallb (fun po => match strip_header c (snd po) with
+                     | None => false
+                     | Some body => spec_out_ok (k_fmt c) (k_recs c) (fst po) body
+                     end) (k_runs c).
 
 Definition opt_eqb (a b : option (list Z)) : bool :=
   match a, b with Some x, Some y => zlist_eqb x y | None, None => true | _, _ => false end.
@@ -60,7 +66,7 @@ Definition hyp_ok (c : case) : bool :=
 
 Definition model_ok (c : case) : bool :=
   hyp_ok c &&
-  match strip_header c with
-  | None => false
-  | Some body => opt_eqb body (model_out (k_fmt c) (k_file c) (k_prog c))
-  end.
+  forallb (fun po => match strip_header c (snd po) with
+                     | None => false
+                     | Some body => opt_eqb body (model_out (k_fmt c) (k_file c) (fst po))
+                     end) (k_runs c).
